@@ -18,6 +18,12 @@ CHECKS = {
         'time_limit': {'quick': 600, 'thorough': 3600},
         'assumptions': CALNOTE,
     },
+    'C15': {
+        'bins': [rcbin('C15')],
+        'shards': {'quick': 8, 'thorough': 16},
+        'time_limit': {'quick': 600, 'thorough': 3600},
+        'assumptions': CALNOTE + ['naming rules (fixedref in c15.cc) transcribed from time_zone.h / time_zone_fixed.h documentation'],
+    },
     'C17': {
         'bins': [rcbin('C17')],
         'shards': {'quick': 8, 'thorough': 16},
